@@ -1,13 +1,527 @@
-//! C16 — not implemented yet (stub so that props/mod.rs never has to change).
-use crate::engine::PropSpec;
+//! C16 — Hot/cold repositories keep the hot copy complete at every moment.
+//!
+//! Generated: histories {backup, forget, prune with repacking, copy into, config change, key
+//! add/remove, restore, repair index} on a hot/cold pair of in-memory stores that share one totally
+//! ordered operation log; in half of the cases the cold store rejects (and records) reads of packs
+//! that were not warmed up first. Then a generated subset of hot files is removed and the hot/cold
+//! repair is run.
+//! Oracles: (1) for EVERY prefix of the combined log: each key/snapshot/index file and tree pack
+//! listed by the cold store exists in the hot store with identical bytes and no data pack is in the
+//! hot store; (2) differential against the same history on a single store (tree ids, model content,
+//! check verdict, reachable blobs); (3) no cold pack read without a preceding warm-up;
+//! (4) repair restores invariant (1) and a normal open + check succeeds.
+
+use std::{collections::BTreeSet, sync::Arc};
+
+use proptest::prelude::*;
+use rustic_core::{
+    BackupOptions, ConfigOptions, Credentials, FileType, Id, KeyOptions, OpenStatus, Repository,
+    RepositoryBackends, RestoreOptions, WriteBackend,
+    repofile::{KeyId, SnapshotFile},
+};
+use serde::{Deserialize, Serialize};
+use vpcore::fmt::{BType, parse_pack};
+
+use crate::{
+    engine::{Ctx, DynSub, Outcome, PropSpec, Sub, guarded, pick_idx},
+    fsutil::{Scratch, walk},
+    r#gen::{Edit, apply_edit, edit, tree},
+    history::{PruneCfg, prune_cfg},
+    inspect::{index_view, reachable},
+    membe::{Files, MemBackend, Op, OpKind, OpLog, Storage, id_bytes, tidx},
+    model::{Flat, MNode, ReadSchedule, flatten},
+    repo::{
+        CheckVerdict, CmpOpts, RepoCfg, backup_tree, check_verdict, compare, estr, force_opts, init_repo,
+        open_ids, read_snapshot, repo_cfg, repo_opts, snap_template,
+    },
+    restore::{FsCmp, compare_fs, restore_snapshot},
+};
+
+#[derive(Debug, Clone, Serialize, Deserialize, PartialEq, Eq)]
+pub enum Hc {
+    Backup { edits: Vec<Edit>, parent: bool },
+    Forget(u16),
+    Prune(PruneCfg),
+    /// copy a snapshot of a (single-store) source repository into the pair
+    CopyInto { edits: Vec<Edit> },
+    Config { compression: i32 },
+    AddKey,
+    DeleteKey,
+    /// restore the selected snapshot to disk (reads data packs from the cold store)
+    Restore(u16),
+    RepairIndex { read_all: bool },
+}
+
+#[derive(Debug, Clone, Serialize, Deserialize)]
+pub struct Case {
+    pub cfg: RepoCfg,
+    pub tree: MNode,
+    pub ops: Vec<Hc>,
+    /// the cold store rejects reads of packs that were not warmed up
+    pub strict_cold: bool,
+    /// which hot files are removed before the repair (bit per file, cycled); 0xffff = all
+    pub remove_mask: u16,
+    pub remove_config: bool,
+    /// only set in the committed witness of the known finding: also run check --read-data on the
+    /// pair and judge it against the single store
+    #[serde(default)]
+    pub judge_read_data: bool,
+}
+
+fn strategy(_ctx: &Ctx) -> BoxedStrategy<Case> {
+    repo_cfg()
+        .prop_flat_map(|cfg| {
+            let mut p = super::c07::params(&cfg);
+            p.file_cap = 60_000;
+            p.max_children = 3;
+            let edits = || prop::collection::vec(edit(p), 0..3);
+            let op = prop_oneof![
+                5 => (edits(), any::<bool>()).prop_map(|(edits, parent)| Hc::Backup { edits, parent }),
+                2 => any::<u16>().prop_map(Hc::Forget),
+                4 => prune_cfg().prop_map(|mut p| {
+                    p.early_delete_index = false;
+                    Hc::Prune(p)
+                }),
+                1 => edits().prop_map(|edits| Hc::CopyInto { edits }),
+                1 => (1i32..6).prop_map(|compression| Hc::Config { compression }),
+                1 => Just(Hc::AddKey),
+                1 => Just(Hc::DeleteKey),
+                2 => any::<u16>().prop_map(Hc::Restore),
+                1 => any::<bool>().prop_map(|read_all| Hc::RepairIndex { read_all }),
+            ];
+            (
+                Just(cfg),
+                tree(p),
+                prop::collection::vec(op, 1..7),
+                any::<bool>(),
+                prop_oneof![1 => Just(0xffffu16), 3 => any::<u16>()],
+                any::<bool>(),
+            )
+        })
+        .prop_map(|(cfg, tree, ops, strict_cold, remove_mask, remove_config)| Case {
+            cfg,
+            tree,
+            ops,
+            strict_cold,
+            remove_mask,
+            remove_config,
+            judge_read_data: false,
+        })
+        .boxed()
+}
+
+/// one repository: either a hot/cold pair or a single store
+struct Repo {
+    cfg: RepoCfg,
+    cold: Arc<Storage>,
+    hot: Option<Arc<Storage>>,
+    tree: MNode,
+    live: Vec<(SnapshotFile, Arc<Flat>)>,
+    clock: i64,
+    extra_key: Option<KeyId>,
+}
+
+impl Repo {
+    fn backends(&self) -> RepositoryBackends {
+        RepositoryBackends::new(
+            Arc::new(self.cold.handle()) as Arc<dyn WriteBackend>,
+            self.hot.as_ref().map(|h| Arc::new(h.handle()) as Arc<dyn WriteBackend>),
+        )
+    }
+
+    fn new(cfg: &RepoCfg, tree: &MNode, pair: bool, strict_cold: bool) -> Result<Self, String> {
+        let log = Arc::new(OpLog::default());
+        let cold = Storage::with_log(log.clone(), 0);
+        let hot = pair.then(|| Storage::with_log(log, 1));
+        if pair && strict_cold {
+            cold.enable_cold();
+        }
+        let r = Self {
+            cfg: cfg.clone(),
+            cold,
+            hot,
+            tree: tree.clone(),
+            live: Vec::new(),
+            clock: 1_700_000_000,
+            extra_key: None,
+        };
+        let mut config = cfg.config_file();
+        if pair {
+            config.is_hot = Some(true);
+        }
+        let be = r.backends();
+        guarded(|| {
+            Repository::new(&repo_opts(), &be)
+                .map_err(|e| estr(&e))?
+                .init_with_config(&cfg.credentials(), &KeyOptions::default(), config)
+                .map(|_| ())
+                .map_err(|e| format!("init: {}", estr(&e)))
+        })
+        .map_err(|p| format!("init panicked: {p}"))??;
+        Ok(r)
+    }
+
+    fn open(&self) -> Result<Repository<OpenStatus>, String> {
+        Repository::new(&repo_opts(), &self.backends())
+            .map_err(|e| estr(&e))?
+            .open(&self.cfg.credentials())
+            .map_err(|e| format!("open: {}", estr(&e)))
+    }
+
+    fn step(&mut self, op: &Hc) -> Result<(), String> {
+        let r = guarded(|| self.step_inner(op));
+        match r {
+            Ok(x) => x,
+            Err(p) => Err(format!("panicked: {p}")),
+        }
+    }
+
+    fn step_inner(&mut self, op: &Hc) -> Result<(), String> {
+        self.clock += 100;
+        match op {
+            Hc::Backup { edits, parent } => {
+                for e in edits {
+                    _ = apply_edit(&mut self.tree, e, self.clock - 1_700_000_000);
+                }
+                let repo = self.open()?.to_indexed_ids().map_err(|e| estr(&e))?;
+                let opts: BackupOptions = if *parent { BackupOptions::default() } else { force_opts() };
+                let snap = backup_tree(&repo, &self.tree, &ReadSchedule::default(), &opts, snap_template(self.clock, "host", "", ""))?;
+                self.live.push((snap, Arc::new(flatten(&self.tree))));
+            }
+            Hc::Forget(sel) => {
+                if self.live.len() > 1 {
+                    let i = pick_idx(*sel, self.live.len());
+                    let (s, _) = self.live.remove(i);
+                    self.open()?.delete_snapshots(&[s.id]).map_err(|e| format!("forget: {}", estr(&e)))?;
+                }
+            }
+            Hc::Prune(p) => {
+                let repo = self.open()?;
+                let opts = p.options(&self.cfg);
+                let plan = repo.prune_plan(&opts).map_err(|e| format!("prune_plan: {}", estr(&e)))?;
+                repo.prune(&opts, plan).map_err(|e| format!("prune: {}", estr(&e)))?;
+            }
+            Hc::CopyInto { edits } => {
+                let mut scfg = self.cfg.clone();
+                scfg.key_seed += 31;
+                let src = Storage::new();
+                drop(init_repo(src.handle(), &scfg)?);
+                let mut t = self.tree.clone();
+                for e in edits {
+                    _ = apply_edit(&mut t, e, 999);
+                }
+                let snap = {
+                    let repo = open_ids(&src, &scfg)?;
+                    backup_tree(&repo, &t, &ReadSchedule::default(), &force_opts(), snap_template(self.clock, "src", "", ""))?
+                };
+                let from = crate::repo::open_full(&src, &scfg)?;
+                let to = self.open()?.to_indexed_ids().map_err(|e| estr(&e))?;
+                let before: BTreeSet<Id> = self.cold.ids(FileType::Snapshot).into_iter().collect();
+                from.copy(&to, [&snap]).map_err(|e| format!("copy: {}", estr(&e)))?;
+                let all = self.open()?.get_all_snapshots().map_err(|e| estr(&e))?;
+                for s in all {
+                    if !before.contains(&Id::new(id_bytes(&s.id))) {
+                        self.live.push((s, Arc::new(flatten(&t))));
+                    }
+                }
+            }
+            Hc::Config { compression } => {
+                let mut repo = self.open()?;
+                let mut o = ConfigOptions::default();
+                if self.cfg.version >= 2 {
+                    o.set_compression = Some(*compression);
+                }
+                o.set_datapack_size = Some(bytesize::ByteSize(20_000));
+                _ = repo.apply_config(&o).map_err(|e| format!("apply_config: {}", estr(&e)))?;
+            }
+            Hc::AddKey => {
+                if self.extra_key.is_none() {
+                    let id = self.open()?.add_key("another password", &KeyOptions::default()).map_err(|e| format!("add_key: {}", estr(&e)))?;
+                    self.extra_key = Some(id);
+                }
+            }
+            Hc::DeleteKey => {
+                if let Some(id) = self.extra_key.take() {
+                    self.open()?.delete_key(&id).map_err(|e| format!("delete_key: {}", estr(&e)))?;
+                }
+            }
+            Hc::Restore(sel) => {
+                if !self.live.is_empty() {
+                    let (s, m) = &self.live[pick_idx(*sel, self.live.len())];
+                    let repo = self.open()?.to_indexed().map_err(|e| estr(&e))?;
+                    let scratch = Scratch::new("c16");
+                    let dest = scratch.path().join("d");
+                    restore_snapshot(&repo, s, &dest, &RestoreOptions::default().no_ownership(true))?;
+                    let fs = walk(&dest).map_err(|e| e.to_string())?;
+                    if let Some(d) = compare_fs(m, &fs, &FsCmp { ownership: false, hardlinks: true, exact_set: true }) {
+                        return Err(format!("restored tree differs from the source: {d}"));
+                    }
+                }
+            }
+            Hc::RepairIndex { read_all } => {
+                let repo = self.open()?;
+                repo.repair_index(&rustic_core::RepairIndexOptions::default().read_all(*read_all), false)
+                    .map_err(|e| format!("repair_index: {}", estr(&e)))?;
+            }
+        }
+        Ok(())
+    }
+
+    fn verify_snapshots(&self) -> Result<(), String> {
+        // reading back is the oracle's business: it does not have to ask for warm-up
+        self.cold.warm_everything();
+        let r = self.verify_snapshots_inner();
+        self.cold.cool_down();
+        r
+    }
+
+    fn verify_snapshots_inner(&self) -> Result<(), String> {
+        let repo = self.open()?.to_indexed().map_err(|e| format!("to_indexed: {}", estr(&e)))?;
+        for (s, m) in &self.live {
+            let got = read_snapshot(&repo, s, true)?;
+            if let Some(d) = compare(m, &got, &CmpOpts { full_meta: true, content: true }) {
+                return Err(format!("snapshot {}: {d}", s.id));
+            }
+        }
+        Ok(())
+    }
+}
+
+/// invariant (1) on a pair of file maps
+fn hot_complete(cold: &Files, hot: &Files, key: &[u8; 64]) -> Result<(), String> {
+    for ((t, id), data) in cold {
+        let tpe = crate::membe::tfrom(*t);
+        let must = match tpe {
+            FileType::Key | FileType::Snapshot | FileType::Index => true,
+            FileType::Pack => pack_is_tree(key, data),
+            FileType::Config => false,
+        };
+        if must {
+            match hot.get(&(*t, *id)) {
+                None => return Err(format!("{tpe} file {id:?} is listed by the cold store but missing in the hot store")),
+                Some(h) if h != data => return Err(format!("{tpe} file {id:?} differs between hot and cold store")),
+                _ => {}
+            }
+        }
+    }
+    for ((t, id), data) in hot {
+        if *t == tidx(FileType::Pack) && !pack_is_tree(key, data) {
+            return Err(format!("data pack {id:?} was placed in the hot store"));
+        }
+    }
+    Ok(())
+}
+
+fn pack_is_tree(key: &[u8; 64], data: &[u8]) -> bool {
+    match parse_pack(key, data) {
+        Ok(info) => info.entries.first().is_some_and(|e| e.tpe == BType::Tree),
+        // an undecodable pack cannot be classified; treat as data (not required in hot)
+        Err(_) => false,
+    }
+}
+
+/// walk the combined log and check invariant (1) after every applied storage-changing operation
+fn check_all_prefixes(log: &[Op], key: &[u8; 64]) -> Result<usize, String> {
+    let mut cold = Files::new();
+    let mut hot = Files::new();
+    let mut n = 0;
+    for op in log {
+        if !op.kind.mutating() || !op.applied {
+            continue;
+        }
+        let files = if op.store == 0 { &mut cold } else { &mut hot };
+        let k = if op.tpe == FileType::Config { (0, Id::default()) } else { (tidx(op.tpe), op.id) };
+        match op.kind {
+            OpKind::Write => _ = files.insert(k, op.data.clone().expect("data logged")),
+            OpKind::Remove => _ = files.remove(&k),
+            _ => {}
+        }
+        n += 1;
+        hot_complete(&cold, &hot, key).map_err(|e| {
+            format!(
+                "after storage operation #{n} ({:?} {} {:?} on the {} store): {e}",
+                op.kind,
+                op.tpe,
+                op.id,
+                if op.store == 0 { "cold" } else { "hot" }
+            )
+        })?;
+    }
+    Ok(n)
+}
+
+pub fn run(c: &Case, _ctx: &Ctx) -> Outcome {
+    let mut out = Outcome::pass().class_if(c.strict_cold, "strict_cold_store");
+    macro_rules! fail {
+        ($($arg:tt)*) => {{
+            out.failure = Some(format!($($arg)*));
+            return out;
+        }};
+    }
+    let key = c.cfg.key64();
+    let mut pair = match Repo::new(&c.cfg, &c.tree, true, c.strict_cold) {
+        Ok(r) => r,
+        Err(e) => fail!("hot/cold pair: {e}"),
+    };
+    let mut single = match Repo::new(&c.cfg, &c.tree, false, false) {
+        Ok(r) => r,
+        Err(e) => fail!("single store: {e}"),
+    };
+    let first = Hc::Backup { edits: vec![], parent: false };
+    let mut repacked_tree = false;
+    for (i, op) in std::iter::once(&first).chain(c.ops.iter()).enumerate() {
+        let packs_before: BTreeSet<Id> = pair.hot.as_ref().unwrap().ids(FileType::Pack).into_iter().collect();
+        let rs = single.step(op);
+        let rp = pair.step(op);
+        match (&rs, &rp) {
+            (Ok(()), Ok(())) => {}
+            (Err(a), Err(b)) => {
+                // both refuse (e.g. a generated prune option the configuration does not support)
+                out = out.class("op_refused_by_both");
+                let _ = (a, b);
+                continue;
+            }
+            (Ok(()), Err(e)) => fail!("op #{i} {op:?} succeeds on a single store but fails on the hot/cold pair: {e}"),
+            (Err(e), Ok(())) => fail!("op #{i} {op:?} fails on a single store ({e}) but succeeds on the hot/cold pair"),
+        }
+        if matches!(op, Hc::Prune(_)) {
+            let after: BTreeSet<Id> = pair.hot.as_ref().unwrap().ids(FileType::Pack).into_iter().collect();
+            if after.difference(&packs_before).next().is_some() {
+                repacked_tree = true;
+            }
+        }
+    }
+    // (1) every prefix
+    let log = pair.cold.log.snapshot();
+    let nops = match check_all_prefixes(&log, &key) {
+        Ok(n) => n,
+        Err(e) => fail!("{e}"),
+    };
+    // (3) warm-up order
+    if let Some(cs) = pair.cold.cold_state() {
+        if let Some((kind, id)) = cs.violations.first() {
+            fail!("pack {id:?} was read from the cold store ({kind:?}) without a preceding warm-up request");
+        }
+    }
+    // (2) differential: same snapshots (trees), same content, same verdict, same reachable blobs
+    let trees_s: Vec<_> = single.live.iter().map(|(s, _)| s.tree).collect();
+    let trees_p: Vec<_> = pair.live.iter().map(|(s, _)| s.tree).collect();
+    if trees_s != trees_p {
+        fail!("snapshot trees differ between single-store and hot/cold run");
+    }
+    if let Err(e) = pair.verify_snapshots() {
+        fail!("hot/cold pair: {e}");
+    }
+    if let Err(e) = single.verify_snapshots() {
+        fail!("single store: {e}");
+    }
+    let vs = single.open().map(|r| check_verdict(&r, false));
+    let vp = pair.open().map(|r| check_verdict(&r, false));
+    match (vs, vp) {
+        (Ok(CheckVerdict::Clean), Ok(CheckVerdict::Clean)) => {}
+        (Ok(CheckVerdict::Inconclusive(_)), _) | (_, Ok(CheckVerdict::Inconclusive(_))) => out = out.class("check_inconclusive"),
+        (a, b) => fail!("check verdicts differ or report errors: single store {a:?}, hot/cold {b:?}"),
+    }
+    // check --read-data on a hot/cold pair reads packs through the hot store: known finding, judged
+    // only by the committed witness (the repository's own test suite asserts this failure)
+    if c.judge_read_data {
+        if let Ok(CheckVerdict::Errors(e)) = pair.open().map(|r| check_verdict(&r, true)) {
+            let mut o = Outcome::fail(format!(
+                "check --read-data succeeds on a single store but fails on the equivalent hot/cold pair: {e}"
+            ));
+            o.classes = out.classes;
+            return o.known("hotcold-check-read-data");
+        }
+    }
+    let reach = |r: &Repo| -> Result<BTreeSet<_>, String> {
+        let view = index_view(&r.cold, &key)?;
+        let mut all = BTreeSet::new();
+        for (s, _) in &r.live {
+            all.extend(reachable(&r.cold, &key, &view, &id_bytes(&s.tree))?);
+        }
+        Ok(all)
+    };
+    match (reach(&single), reach(&pair)) {
+        (Ok(a), Ok(b)) if a == b => {}
+        (Ok(a), Ok(b)) => fail!("reachable blob sets differ: {} on the single store, {} on the pair", a.len(), b.len()),
+        (Err(e), _) | (_, Err(e)) => fail!("reachable blobs: {e}"),
+    }
+
+    // (4) remove hot files, repair
+    let hot = pair.hot.clone().unwrap();
+    let hot_files: Vec<(u8, Id)> = hot.files().keys().copied().collect();
+    let mut removed_types = BTreeSet::new();
+    for (i, (t, id)) in hot_files.iter().enumerate() {
+        let is_config = *t == 0;
+        let remove = if is_config { c.remove_config } else { c.remove_mask == 0xffff || (c.remove_mask >> (i % 16)) & 1 == 1 };
+        if remove {
+            hot.with_files(|f| _ = f.remove(&(*t, *id)));
+            _ = removed_types.insert(*t);
+        }
+    }
+    let be = pair.backends();
+    let creds: Credentials = c.cfg.credentials();
+    let rep = guarded(|| -> Result<(), String> {
+        let repo = Repository::new(&repo_opts(), &be)
+            .map_err(|e| estr(&e))?
+            .open_only_cold(&creds)
+            .map_err(|e| format!("open_only_cold: {}", estr(&e)))?;
+        repo.init_hot().map_err(|e| format!("init_hot: {}", estr(&e)))?;
+        repo.repair_hotcold_except_packs(false).map_err(|e| format!("repair_hotcold_except_packs: {}", estr(&e)))?;
+        let repo = Repository::new(&repo_opts(), &be)
+            .map_err(|e| estr(&e))?
+            .open(&creds)
+            .map_err(|e| format!("open after repair: {}", estr(&e)))?;
+        repo.repair_hotcold_packs(false).map_err(|e| format!("repair_hotcold_packs: {}", estr(&e)))
+    });
+    match rep {
+        Ok(Ok(())) => {}
+        Ok(Err(e)) => fail!("hot/cold repair after removing hot files of {} type(s): {e}", removed_types.len()),
+        Err(p) => fail!("hot/cold repair panicked: {p}"),
+    }
+    if let Err(e) = hot_complete(&pair.cold.files(), &hot.files(), &key) {
+        fail!("after the hot/cold repair: {e}");
+    }
+    if let Some(cs) = pair.cold.cold_state() {
+        if let Some((kind, id)) = cs.violations.first() {
+            fail!("during the repair pack {id:?} was read from the cold store ({kind:?}) without a warm-up request");
+        }
+    }
+    match pair.open().map(|r| check_verdict(&r, false)) {
+        Ok(CheckVerdict::Errors(e)) => fail!("after the hot/cold repair: {e}"),
+        Err(e) => fail!("after the hot/cold repair: {e}"),
+        _ => {}
+    }
+    if let Err(e) = pair.verify_snapshots() {
+        fail!("after the hot/cold repair: {e}");
+    }
+    out.nontrivial = repacked_tree || removed_types.len() >= 2;
+    out.count("storage_ops_prefixes_checked", nops as u64)
+        .class_if(repacked_tree, "prune_repacked_tree_pack")
+        .class_if(removed_types.len() >= 2, "repair_of_>=2_file_types")
+}
+
+#[allow(dead_code)]
+fn _unused(_: MemBackend) {}
 
 pub fn spec() -> PropSpec {
     PropSpec {
         id: "C16",
-        level: "exploration",
-        rule: "",
-        assumptions: vec![],
-        subs: vec![],
+        level: "fault_enumeration",
+        rule: "proptest generates (configuration, source tree, history of 1–6 operations after an initial backup from {backup ±parent, forget, prune with generated options, copy into, config change, key add/remove, restore to disk, repair index ±read-all}, strict cold store on/off, subset of hot files to remove incl. all and incl. the config); the history runs on a hot/cold pair of in-memory stores with one shared operation log and, for the differential, on a single store. The hot⊇cold invariant is evaluated after EVERY applied storage operation of the combined log (counter storage_ops_prefixes_checked). Non-trivial = a prune that wrote a new tree pack, or a repair after removing hot files of ≥2 types; distinct by hash of the case.",
+        assumptions: vec![
+            "storage operations are atomic; the interruption model is 'any prefix of the combined hot+cold operation sequence'",
+            "pack type (tree/data) is decided with the independent trailer decoder",
+            "check --read-data on a hot/cold pair is a known finding (the repository's own test suite asserts that it fails) and is only judged by its committed witness",
+        ],
+        subs: vec![Box::new(Sub {
+            name: "hotcold",
+            cases_quick: 400,
+            cases_thorough: 5000,
+            max_shrink_iters: 100,
+            strategy,
+            run,
+        }) as Box<dyn DynSub>],
         extra: None,
     }
 }
